@@ -897,13 +897,27 @@ def build(repo=None):
     p = [a.arg for a in vm.args.args]
     st.env = {p[0]: self_ref, p[1]: node}
     kk = z3.Int("k")
-    mloops = [x for x in ast.walk(vm) if isinstance(x, ast.For)]
+    # the search loop may live in visit_Module itself or in a private helper it calls (module-level function or method of the transformer): found by role
+    tr_methods = {b_.name: b_ for b_ in mod.cls("JaxtypingTransformer").body if isinstance(b_, ast.FunctionDef)}
+    mod_fns = {b_.name: b_ for b_ in mod.tree.body if isinstance(b_, ast.FunctionDef)}
+    called = []
+    for c_ in ast.walk(vm):
+        if isinstance(c_, ast.Call):
+            if isinstance(c_.func, ast.Name) and c_.func.id in mod_fns:
+                called.append(mod_fns[c_.func.id])
+            elif isinstance(c_.func, ast.Attribute) and isinstance(c_.func.value, ast.Name) and c_.func.value.id == p[0] and c_.func.attr in tr_methods and c_.func.attr not in ("generic_visit", "visit"):
+                called.append(tr_methods[c_.func.attr])
+    mloops = [x for f_ in [vm] + called for x in ast.walk(f_) if isinstance(x, ast.For)]
     if len(mloops) != 1:
         raise Unsupported("visit_Module: expected one loop")
 
     def mod_loop(e, nd, s0):
         outs = []
-        if "enumerate(node.body)" not in ast.unparse(nd.iter).replace(" ", ""):
+        it_ok = isinstance(nd.iter, ast.Call) and getattr(nd.iter.func, "id", "") == "enumerate" and len(nd.iter.args) == 1 and not nd.iter.keywords and isinstance(nd.target, ast.Tuple) and len(nd.target.elts) == 2
+        if it_ok:
+            (s_it, itv), = e.ev(nd.iter.args[0], s0)
+            it_ok = isinstance(itv, Opaque) and itv.tag == "node.body"
+        if not it_ok:
             raise Unsupported("visit_Module loop does not enumerate node.body")
         iv, cv = nd.target.elts[0].id, nd.target.elts[1].id
         s1 = s0.clone()
@@ -914,26 +928,33 @@ def build(repo=None):
         for s2, o2 in e.run(nd.body, s1):
             if o2.kind in ("normal", "continue"):
                 e.oblige(s2, "C10:module:statements-skipped-are-__future__-imports-or-constant-expressions", z3.And(AllSkip(kk + 1), z3.BoolVal(not s2.ghost["list_ops"])))
-            elif o2.kind == "break":
-                ops = s2.ghost["list_ops"]
-                ok = len(ops) == 1 and isinstance(ops[0][1], Z) and ops[0][2] is new_import and s2.ghost.get("import_ok")
-                e.oblige(s2, "C10:module:exactly-one-`import jaxtyping`-is-inserted", z3.BoolVal(bool(ok)))
-                if ok:
-                    e.oblige(s2, "C10:module:import-goes-right-after-the-leading-__future__/docstring-run", z3.And(ops[0][1].t == kk, AllSkip(kk), z3.Not(Skip(body[kk]))))
-                outs.append((s2, NORMAL))
+            elif o2.kind in ("break", "return"):
+                # the search stops at statement k: it must be the first one that is not skippable (whatever is then done with k is judged at the end of visit_Module)
+                e.oblige(s2, "C10:module:import-goes-right-after-the-leading-__future__/docstring-run", z3.And(AllSkip(kk), z3.Not(Skip(body[kk]))))
+                s2.path.append("module-loop:found")
+                outs.append((s2, NORMAL if o2.kind == "break" else o2))
             else:
                 outs.append((s2, o2))
         s3 = s0.clone()
         s3.pc += [AllSkip(0), AllSkip(nb)]
         s3.path.append("module-loop:whole-body-skippable")
-        outs.append((s3, NORMAL))
+        if nd.orelse:
+            outs.extend(e.run(nd.orelse, s3))
+        else:
+            outs.append((s3, NORMAL))
         return outs
 
     eng.loop_specs[id(mloops[0])] = mod_loop
     for s1, o in eng.run(vm.body, st):
         paths += 1
         ops = s1.ghost["list_ops"]
-        eng.oblige(s1, "C10:module:at-most-one-insertion-and-none-when-the-whole-body-is-skippable", z3.BoolVal(len(ops) == (0 if "module-loop:whole-body-skippable" in s1.path else 1)))
+        found = "module-loop:found" in s1.path
+        eng.oblige(s1, "C10:module:at-most-one-insertion-and-none-when-the-whole-body-is-skippable", z3.BoolVal(len(ops) == (0 if "module-loop:whole-body-skippable" in s1.path else 1) and (found or "module-loop:whole-body-skippable" in s1.path)))
+        if found:
+            ok = len(ops) == 1 and isinstance(ops[0][1], Z) and ops[0][1].kind == "int" and ops[0][2] is new_import and s1.ghost.get("import_ok")
+            eng.oblige(s1, "C10:module:exactly-one-`import jaxtyping`-is-inserted", z3.BoolVal(bool(ok)))
+            if ok:
+                eng.oblige(s1, "C10:module:import-goes-right-after-the-leading-__future__/docstring-run", ops[0][1].t == kk)
         gv = [c for c in s1.ghost["calls"] if c[0] == "generic_visit"]
         eng.oblige(s1, "C10:module:children-visited-once-node-returned-nothing-else-written", z3.BoolVal(len(gv) == 1 and o.kind == "return" and isinstance(o.val, Ref) and o.val.h == node.h and s1.get(node) is n0 and s1.get(parents).items == []))
     collect(st.obl, ["C10"])
